@@ -5,7 +5,7 @@
    execution after every action; `no_err err_Cxx m` = the monitor reported no error of this property's class;
    `no_raise ls` = no request ended in an exception. *)
 From Coq Require Import ZArith List Bool.
-From CS Require Ops RevConv RevBridge4 RevolveRun Refuted DiskRun DiskBridge3 HRevRun HRevTop.
+From CS Require Ops RevConv RevBridge4 RevolveRun Refuted DiskRun DiskBridge3 HRevRun HRevTop GenLang GenBasic.
 From CS Require Import Actions NAdvance Multistage Exec Sched RunFacts Projections BasicInv MultistageRun AllocTotal TLBridge MixBridge.
 Import ListNotations.
 Open Scope Z_scope.
@@ -240,4 +240,16 @@ Theorem C02_mixed_terminates :
 Proof. exact (@MixBridge.mixed_terminates). Qed.
 Print Assumptions C02_mixed_terminates.
 End M_C02_mixed_terminates.
+
+(* THE MODEL OF THE THREE BASIC CLASSES IS THE SOURCE: GenBasic.prog_of c is the program (deep-embedded generator language GenLang) that harness/translate.py produces from the _iterator method of NoneCheckpointSchedule / SingleMemoryStorageSchedule / SingleDiskStorageSchedule; Gen/BasicGen.v re-translates the current source on every run and proves it equal to that term by conversion.  Resuming that program request by request (GenLang.run = next() on the suspended generator; finalize = the base-class method on the attributes) from the freshly constructed object gives, under EVERY history of next() and finalize(k) calls, exactly the observations (outcome, n, r, max_n, is_exhausted) of the hand-written model Online.run_ops -- so the theorems of this file about these three classes, stated on the extracted model, are theorems about the translated source *)
+Module M_C02_basic_source_is_model.
+Import GenBasic.
+Theorem C02_basic_source_is_model :
+  forall (c : Online.kls) (ops : list Online.op) (s : Online.st),
+         basic c ->
+         Online.construct c = Actions.Ok s ->
+         grun_ops c [GenLang.FS (prog_of c)] (g_init c) ops = Online.run_ops s ops.
+Proof. exact (@GenBasic.basic_from_start). Qed.
+Print Assumptions C02_basic_source_is_model.
+End M_C02_basic_source_is_model.
 
